@@ -37,3 +37,25 @@ func TestVerifReplay(t *testing.T) {
 		t.Fatalf("VERIF-REPLAY-FAIL %v", verifFailures)
 	}
 }
+
+// TestVerifTV runs a translator-validation harness natively and prints its observations.
+func TestVerifTV(t *testing.T) {
+	name := os.Getenv("VERIF_TV")
+	if name == "" {
+		t.Skip("no VERIF_TV")
+	}
+	h, ok := verifHarnessTable[name]
+	if !ok {
+		t.Fatalf("unknown harness %s", name)
+	}
+	h()
+	out := os.Getenv("VERIF_TV_OUT")
+	f, err := os.Create(out)
+	if err != nil {
+		t.Fatal(err)
+	}
+	defer f.Close()
+	for _, o := range verifObservations {
+		f.WriteString(o + "\n")
+	}
+}
